@@ -18,7 +18,9 @@ Record state := {
   fid_name : list Z;                    (* FieldIdItem.name_idx_value *)
   em_name : list Z;                     (* EncodedMethod.name *)
   ef_name : list Z;                     (* EncodedField.name *)
-  cls_name : list Z }.                  (* ClassDefItem.name *)
+  cls_name : list Z;                    (* ClassDefItem.name *)
+  em_loaded : list bool;                (* EncodedMethod.loaded: the name is fetched at the first get_name(), not when the file is parsed *)
+  ef_loaded : list bool }.              (* EncodedField.loaded *)
 
 Inductive op :=
 | RenM (k v : Z) | RenF (k v : Z) | RenC (c v : Z)       (* set_name on the k-th method / field, the c-th class *)
@@ -43,45 +45,59 @@ Definition valid {A} (l : list A) (k : Z) : bool := (0 <=? k) && (k <? Z.of_nat 
 
 Definition init (d : dexfile) : state :=
   {| hooks := []; mid_name := map snd (d_methods d); fid_name := map snd (d_fields d);
-     em_name := map snd (d_methods d); ef_name := map snd (d_fields d); cls_name := d_classes d |}.
+     em_name := map snd (d_methods d); ef_name := map snd (d_fields d); cls_name := d_classes d;
+     em_loaded := map (fun _ => false) (d_methods d); ef_loaded := map (fun _ => false) (d_fields d) |}.
 
 Definition step (d : dexfile) (s : state) (o : op) : state * option Z :=
   match o with
   | RenM k v =>
       if negb (valid (d_methods d) k) then (s, None) else
       let h := hook s (m_name_idx d k) v in
-      (* set_hook_string; method.reload(); then EncodedMethod.reload() *)
-      let s1 := {| hooks := h; mid_name := mid_name s; fid_name := fid_name s; em_name := em_name s; ef_name := ef_name s; cls_name := cls_name s |} in
+      (* set_hook_string; encoded_method.get_name() for the Python export (which loads the item: its old name, overwritten
+         below); method.reload(); then EncodedMethod.reload() *)
+      let s1 := {| hooks := h; mid_name := mid_name s; fid_name := fid_name s; em_name := em_name s; ef_name := ef_name s; cls_name := cls_name s; em_loaded := em_loaded s; ef_loaded := ef_loaded s |} in
       let mn := updz (mid_name s) k (get_string s1 (m_name_idx d k)) in
       ({| hooks := h; mid_name := mn; fid_name := fid_name s; em_name := updz (em_name s) k (nthz mn k (-1)); ef_name := ef_name s;
-          cls_name := cls_name s |}, None)
+          cls_name := cls_name s; em_loaded := updz (em_loaded s) k true; ef_loaded := ef_loaded s |}, None)
   | RenF k v =>
       if negb (valid (d_fields d) k) then (s, None) else
       let h := hook s (f_name_idx d k) v in
-      let s1 := {| hooks := h; mid_name := mid_name s; fid_name := fid_name s; em_name := em_name s; ef_name := ef_name s; cls_name := cls_name s |} in
+      let s1 := {| hooks := h; mid_name := mid_name s; fid_name := fid_name s; em_name := em_name s; ef_name := ef_name s; cls_name := cls_name s; em_loaded := em_loaded s; ef_loaded := ef_loaded s |} in
       let fn := updz (fid_name s) k (get_string s1 (f_name_idx d k)) in
       ({| hooks := h; mid_name := mid_name s; fid_name := fn; em_name := em_name s; ef_name := updz (ef_name s) k (nthz fn k (-1));
-          cls_name := cls_name s |}, None)
+          cls_name := cls_name s; em_loaded := em_loaded s; ef_loaded := updz (ef_loaded s) k true |}, None)
   | RenC c v =>
       if negb (valid (d_classes d) c) then (s, None) else
       let h := hook s (c_desc_idx d c) v in
-      let s1 := {| hooks := h; mid_name := mid_name s; fid_name := fid_name s; em_name := em_name s; ef_name := ef_name s; cls_name := cls_name s |} in
+      let s1 := {| hooks := h; mid_name := mid_name s; fid_name := fid_name s; em_name := em_name s; ef_name := ef_name s; cls_name := cls_name s; em_loaded := em_loaded s; ef_loaded := ef_loaded s |} in
       (* class_def.reload(); every MethodIdItem reloaded; the methods and fields of the class reloaded *)
       let mn := map (fun k => get_string s1 (m_name_idx d k)) (indices (d_methods d)) in
       let em := map (fun k => if fst (nthz (d_methods d) k (0, -1)) =? c then nthz mn k (-1) else nthz (em_name s) k (-1)) (indices (d_methods d)) in
       let ef := map (fun k => if fst (nthz (d_fields d) k (0, -1)) =? c then nthz (fid_name s) k (-1) else nthz (ef_name s) k (-1)) (indices (d_fields d)) in
       ({| hooks := h; mid_name := mn; fid_name := fid_name s; em_name := em; ef_name := ef;
-          cls_name := updz (cls_name s) c (get_string s1 (c_desc_idx d c)) |}, None)
+          cls_name := updz (cls_name s) c (get_string s1 (c_desc_idx d c));
+          em_loaded := em_loaded s; ef_loaded := ef_loaded s |}, None)
   | ReloadM k =>
       if negb (valid (d_methods d) k) then (s, None) else
       ({| hooks := hooks s; mid_name := mid_name s; fid_name := fid_name s; em_name := updz (em_name s) k (nthz (mid_name s) k (-1));
-          ef_name := ef_name s; cls_name := cls_name s |}, None)
+          ef_name := ef_name s; cls_name := cls_name s; em_loaded := em_loaded s; ef_loaded := ef_loaded s |}, None)
   | ReloadF k =>
       if negb (valid (d_fields d) k) then (s, None) else
       ({| hooks := hooks s; mid_name := mid_name s; fid_name := fid_name s; em_name := em_name s;
-          ef_name := updz (ef_name s) k (nthz (fid_name s) k (-1)); cls_name := cls_name s |}, None)
-  | QueryM k => (s, Some (nthz (em_name s) k (-1)))
-  | QueryF k => (s, Some (nthz (ef_name s) k (-1)))
+          ef_name := updz (ef_name s) k (nthz (fid_name s) k (-1)); cls_name := cls_name s; em_loaded := em_loaded s; ef_loaded := ef_loaded s |}, None)
+  (* get_name: an item not loaded yet takes its name from the id item now (load), and is loaded from then on *)
+  | QueryM k =>
+      if negb (valid (d_methods d) k) then (s, Some (-1)) else
+      if nthz (em_loaded s) k false then (s, Some (nthz (em_name s) k (-1))) else
+      let nm := nthz (mid_name s) k (-1) in
+      ({| hooks := hooks s; mid_name := mid_name s; fid_name := fid_name s; em_name := updz (em_name s) k nm; ef_name := ef_name s;
+          cls_name := cls_name s; em_loaded := updz (em_loaded s) k true; ef_loaded := ef_loaded s |}, Some nm)
+  | QueryF k =>
+      if negb (valid (d_fields d) k) then (s, Some (-1)) else
+      if nthz (ef_loaded s) k false then (s, Some (nthz (ef_name s) k (-1))) else
+      let nm := nthz (fid_name s) k (-1) in
+      ({| hooks := hooks s; mid_name := mid_name s; fid_name := fid_name s; em_name := em_name s; ef_name := updz (ef_name s) k nm;
+          cls_name := cls_name s; em_loaded := em_loaded s; ef_loaded := updz (ef_loaded s) k true |}, Some nm)
   | QueryC c => (s, Some (nthz (cls_name s) c (-1)))
   | QueryS j => (s, Some (if valid (d_consts d) j then get_string s (nthz (d_consts d) j (-1)) else -1))
   end.
